@@ -423,7 +423,7 @@ Definition check_case (c : case) : bool :=
   | CNumbers before specs numbers after =>
       let (l, c) := assign false before specs in list_eqb Nat.eqb l numbers && Nat.eqb c after
   | CSneakier ops results =>
-      list_eqb (opt_eqb (list_eqb Z.eqb)) (sneakier false ops [] None None) results
+      list_eqb (opt_eqb (list_eqb Z.eqb)) (sneakier true ops [] None None) results
   | CCaller sorted_csv workers outs sched raised stored final =>
       let s := run_jobs workers outs sched in
       let (r, acc) := consume (jtaken s) [] in
